@@ -21,7 +21,7 @@ RUN_TIMEOUT_S = 180.0
 REPO = None
 
 
-def warmup():
+def warmup(with_selector=True):
     global REPO
     import os
     import adsg_core
@@ -31,6 +31,8 @@ def warmup():
     import adsg_core.optimization.evaluator  # noqa
     simenv.setup(REPO)
     simenv.install_limiter()
+    if not with_selector:
+        return {'interrupt_type_injected': 'SystemError (probed from the real limiter by C19 / E1)'}
     import adsg_core.optimization.assign_enc.selector as sel
     from simkit import gen_settings
     with simenv.RunEnv(1):  # compile the numba kernels once, in the parent
